@@ -21,7 +21,8 @@ ASSUMPTIONS = [
 ]
 OUTSIDE = ['forests with more nodes than the bound, more than two shared '
            'insertions',
-           'call sites in the strategies are covered by the C05 harness']
+           'call sites: only along the strategy runs explored in the '
+           'sites_* partitions (strategy environment of C05)']
 
 
 def bounds(tier):
@@ -170,8 +171,32 @@ def _setup():
     shims.install_hash('S')
 
 
+def check_ids(env, final):
+    """Call sites: every input handed to a TaskGenerator / Producer has
+    pairwise distinct node ids (recorded by the strategy environment)."""
+    if env.dup_ids:
+        return (f'an input with repeated node ids was given to '
+                f'{env.dup_ids[0]} after the accepted inputs {env.writes!r}')
+    return None
+
+
+SITE_CONFIGS = [('ddmin', 'b', 'elim'), ('hierarchical', 'b', 'elim'),
+                ('hybrid', 'b', 'elim'), ('ddmin', 'b', 'mix'),
+                ('hierarchical', 'b', 'mix')]
+
+
 def partitions(tier):
+    from harness import c05 as B
     parts = []
+    for (st, sc, ms) in SITE_CONFIGS:
+        for oracle in ('first', 'hash0', 'req'):
+            parts.append({'name': f'sites_{st}_{sc}_{ms}_j1_{oracle}',
+                          'kind': 'choices',
+                          'run': B.make_run(st, 1, sc, ms, tier, check_ids,
+                                            (), oracle),
+                          'budget_s': 160 if tier == 'quick' else 850,
+                          'bounds': {'strategy': st, 'script': sc,
+                                     'mutators': ms, 'oracle': oracle}})
     for k, ch in enumerate(_chunks(_forests(tier), 32)):
         parts.append({'name': f'dag_{k}', 'fn': make(ch), 'setup': _setup,
                       'budget_s': 160 if tier == 'quick' else 850,
@@ -181,6 +206,12 @@ def partitions(tier):
 
 def replay(part, cex):
     import os
+    if part.startswith('sites_'):
+        from harness import c05 as B
+        p = part[len('sites_'):]
+        if p.endswith('_first'):
+            p = p[:-len('_first')]
+        return B.replay(p, cex, check_ids)
     tier = os.environ.get('VERIF_TIER_REPLAY', 'quick')
     ch = _chunks(_forests(tier), 32)[int(part.split('_')[1])]
     forest = ch[cex['i']]
